@@ -524,62 +524,35 @@ func runMC(s *part, root, scratch, tier string, passthru []string) *PartResult {
 	if soft > budget/3 {
 		soft = budget / 3 // few scenarios: optional levels must still end before the part's deadline
 	}
-	chunk := total / (workers * 6)
-	if chunk < 1 {
-		chunk = 1
-	}
-	type job struct{ lo, hi int }
-	jobs := make(chan job, total)
-	for lo := 0; lo < total; lo += chunk {
-		hi := lo + chunk
-		if hi > total {
-			hi = total
-		}
-		jobs <- job{lo, hi}
-	}
-	close(jobs)
-	var mu sync.Mutex
-	var results []hx.ShardResult
-	var machineryErr []string
-	notStarted := 0
-	var wg sync.WaitGroup
-	for w := 0; w < workers; w++ {
-		wg.Add(1)
-		go func(w int) {
-			defer wg.Done()
-			for j := range jobs {
-				left := time.Until(deadline)
-				if left <= 0 {
-					mu.Lock()
-					notStarted += j.hi - j.lo
-					mu.Unlock()
-					continue
+	results, notStarted := runJobs(bin, root, scratch, tier, nil, total, workers, deadline, soft, passthru)
+	// Beyond the quick set: with budget left, the quick tier goes on with the
+	// scenarios reserved for the thorough tier (at their required bound only, in
+	// their listed order). They never enter the exhaustive flag; a violation
+	// found there is a violation.
+	var bonus []hx.ShardResult
+	bonusTotal := 0
+	if tier == "quick" && notStarted == 0 && time.Until(deadline) > 20*time.Second {
+		out, err := run(root, nil, bin, "-test.run", "^TestMC$", "-tier", tier, "-bonus", "-list")
+		if err == nil {
+			for _, l := range strings.Split(string(out), "\n") {
+				if strings.HasPrefix(l, "SCENARIOS ") {
+					fmt.Sscanf(l, "SCENARIOS %d", &bonusTotal)
 				}
-				of := filepath.Join(scratch, fmt.Sprintf("r-%d-%d.json", j.lo, j.hi))
-				args := append([]string{"-test.run", "^TestMC$", "-test.timeout", "0", "-tier", tier, "-range", fmt.Sprintf("%d:%d", j.lo, j.hi), "-out", of, "-deadline", left.String(), "-soft", soft.String()}, passthru...)
-				o, err := run(root, []string{"GOMAXPROCS=2"}, bin, args...)
-				var sr hx.ShardResult
-				b, rerr := os.ReadFile(of)
-				if rerr == nil {
-					rerr = json.Unmarshal(b, &sr)
-				}
-				mu.Lock()
-				if rerr != nil {
-					machineryErr = append(machineryErr, fmt.Sprintf("chunk %d:%d: %v %v\n%s", j.lo, j.hi, err, rerr, tail(o)))
-				} else {
-					results = append(results, sr)
-				}
-				mu.Unlock()
-				os.Remove(of)
 			}
-		}(w)
+		}
+		if bonusTotal > 0 {
+			bd := deadline
+			extra := budget / 2
+			if extra > time.Minute {
+				extra = time.Minute
+			}
+			if half := time.Now().Add(extra); half.Before(bd) {
+				bd = half
+			}
+			bonus, _ = runJobs(bin, root, scratch, tier, []string{"-bonus"}, bonusTotal, workers, bd, 0, passthru)
+		}
 	}
-	wg.Wait()
-	if len(machineryErr) > 0 {
-		sort.Strings(machineryErr)
-		fatal("harness process failed:\n%s", strings.Join(machineryErr, "\n"))
-	}
-	return mergeMC(s, root, tier, results, total, notStarted, time.Since(start))
+	return mergeMC(s, root, tier, results, total, notStarted, time.Since(start), bonus, bonusTotal)
 }
 
 // findingKey refines a scenario class by the kind of failure: a panic inside
@@ -623,13 +596,74 @@ func tail(b []byte) string {
 	return s
 }
 
-func mergeMC(s *part, root, tier string, results []hx.ShardResult, total, notStarted int, wall time.Duration) *PartResult {
+// runJobs spreads the scenario index range [0,total) over worker processes.
+func runJobs(bin, root, scratch, tier string, extra []string, total, workers int, deadline time.Time, soft time.Duration, passthru []string) ([]hx.ShardResult, int) {
+	chunk := total / (workers * 6)
+	if chunk < 1 {
+		chunk = 1
+	}
+	type job struct{ lo, hi int }
+	jobs := make(chan job, total)
+	for lo := 0; lo < total; lo += chunk {
+		hi := lo + chunk
+		if hi > total {
+			hi = total
+		}
+		jobs <- job{lo, hi}
+	}
+	close(jobs)
+	var mu sync.Mutex
+	var results []hx.ShardResult
+	var machineryErr []string
+	notStarted := 0
+	var wg sync.WaitGroup
+	for w := 0; w < workers; w++ {
+		wg.Add(1)
+		go func(w int) {
+			defer wg.Done()
+			for j := range jobs {
+				left := time.Until(deadline)
+				if left <= 0 {
+					mu.Lock()
+					notStarted += j.hi - j.lo
+					mu.Unlock()
+					continue
+				}
+				of := filepath.Join(scratch, fmt.Sprintf("r%d-%d-%d.json", len(extra), j.lo, j.hi))
+				args := append([]string{"-test.run", "^TestMC$", "-test.timeout", "0", "-tier", tier, "-range", fmt.Sprintf("%d:%d", j.lo, j.hi), "-out", of, "-deadline", left.String(), "-soft", soft.String()}, append(append([]string{}, extra...), passthru...)...)
+				o, err := run(root, []string{"GOMAXPROCS=2"}, bin, args...)
+				var sr hx.ShardResult
+				b, rerr := os.ReadFile(of)
+				if rerr == nil {
+					rerr = json.Unmarshal(b, &sr)
+				}
+				mu.Lock()
+				if rerr != nil {
+					machineryErr = append(machineryErr, fmt.Sprintf("chunk %d:%d: %v %v\n%s", j.lo, j.hi, err, rerr, tail(o)))
+				} else {
+					results = append(results, sr)
+				}
+				mu.Unlock()
+				os.Remove(of)
+			}
+		}(w)
+	}
+	wg.Wait()
+	if len(machineryErr) > 0 {
+		sort.Strings(machineryErr)
+		fatal("harness process failed:\n%s", strings.Join(machineryErr, "\n"))
+	}
+	return results, notStarted
+}
+
+func mergeMC(s *part, root, tier string, results []hx.ShardResult, total, notStarted int, wall time.Duration, bonus []hx.ShardResult, bonusTotal int) *PartResult {
 	var execs, trans, decisions int64
 	perLevel := []int64{}
 	outcomes := 0
 	maxDepth, maxSteps := 0, 0
 	ran, complete := 0, 0
 	minBound := -2
+	minRequired := -1
 	boundHist := map[string]int{}
 	known := evid.Known(s.ID)
 	perKey := map[string]int{}
@@ -637,6 +671,32 @@ func mergeMC(s *part, root, tier string, results []hx.ShardResult, total, notSta
 	var capped []string
 	var samples []any
 	var findings []evid.Finding
+	report := func(r hx.ScenarioResult, rtier string) {
+		st := r.Stats
+		for vi, v := range st.Violations {
+			key := findingKey(r.Class, v.Msg)
+			perKey[key]++
+			if _, isKnown := known[key]; isKnown && perKey[key] > 3 {
+				// a listed finding: three replay artefacts are enough
+				findings = append(findings, evid.Finding{Key: key, Msg: "(further case of a listed finding) scenario " + r.Name, Replay: firstReplay[key]})
+				continue
+			}
+			rf := hx.ReplayFile{Property: s.ID, Part: s.Name, Scenario: r.Name, Class: r.Class, Choices: v.Choices, Msg: v.Msg, Detail: v.Detail, Logs: v.Logs, Tier: rtier}
+			rname := r.Name
+			if vi > 0 {
+				rname = fmt.Sprintf("v%d_%s", vi+1, r.Name)
+			}
+			path := evid.SaveReplay(s.ID, rname, rf)
+			msg := fmt.Sprintf("scenario %q, schedule cost %d, deterministic on 5 replays: %v\n%s", r.Name, v.Cost, v.Stable, v.Msg)
+			if !v.Stable {
+				fatal("nondeterministic violation (machinery fault, not reported as a violation):\n%s", msg)
+			}
+			if firstReplay[key] == "" {
+				firstReplay[key] = path
+			}
+			findings = append(findings, evid.Finding{Key: key, Msg: msg, Replay: path})
+		}
+	}
 	skipped := notStarted
 	for _, sr := range results {
 		skipped += sr.Skipped
@@ -659,6 +719,9 @@ func mergeMC(s *part, root, tier string, results []hx.ShardResult, total, notSta
 			if st.MaxSteps > maxSteps {
 				maxSteps = st.MaxSteps
 			}
+			if minRequired < 0 || r.Min < minRequired {
+				minRequired = r.Min
+			}
 			if st.Exhaustive {
 				complete++
 			} else {
@@ -679,29 +742,20 @@ func mergeMC(s *part, root, tier string, results []hx.ShardResult, total, notSta
 					"distinct_outcomes": st.Outcomes, "sample_outcomes": st.SampleOutcomes, "exhaustive_within_bound": st.Exhaustive,
 				})
 			}
-			for vi, v := range st.Violations {
-				key := findingKey(r.Class, v.Msg)
-				perKey[key]++
-				if _, isKnown := known[key]; isKnown && perKey[key] > 3 {
-					// a listed finding: three replay artefacts are enough
-					findings = append(findings, evid.Finding{Key: key, Msg: "(further case of a listed finding) scenario " + r.Name, Replay: firstReplay[key]})
-					continue
-				}
-				rf := hx.ReplayFile{Property: s.ID, Part: s.Name, Scenario: r.Name, Class: r.Class, Choices: v.Choices, Msg: v.Msg, Detail: v.Detail, Logs: v.Logs, Tier: tier}
-				rname := r.Name
-				if vi > 0 {
-					rname = fmt.Sprintf("v%d_%s", vi+1, r.Name)
-				}
-				path := evid.SaveReplay(s.ID, rname, rf)
-				msg := fmt.Sprintf("scenario %q, schedule cost %d, deterministic on 5 replays: %v\n%s", r.Name, v.Cost, v.Stable, v.Msg)
-				if !v.Stable {
-					fatal("nondeterministic violation (machinery fault, not reported as a violation):\n%s", msg)
-				}
-				if firstReplay[key] == "" {
-					firstReplay[key] = path
-				}
-				findings = append(findings, evid.Finding{Key: key, Msg: msg, Replay: path})
+			report(r, tier)
+		}
+	}
+	bonusRan, bonusComplete := 0, 0
+	var bonusExecs, bonusTrans int64
+	for _, sr := range bonus {
+		for _, r := range sr.Scenarios {
+			bonusRan++
+			bonusExecs += r.Stats.Execs
+			bonusTrans += r.Stats.Transitions
+			if r.Stats.Exhaustive {
+				bonusComplete++
 			}
+			report(r, "thorough")
 		}
 	}
 	sort.Strings(capped)
@@ -737,9 +791,22 @@ func mergeMC(s *part, root, tier string, results []hx.ShardResult, total, notSta
 		"max_scheduling_points_in_one_execution":  maxSteps,
 		"distinct_outcomes_summed_over_scenarios": outcomes,
 		"lowest_bound_completed":                  minBound,
+		"lowest_bound_required_for_exhaustive":    minRequired,
+		"scenarios_by_bound_completed":            boundHist,
 		"capped_scenarios":                        capped,
 		"exhaustive":                              exhaustive,
 		"wall_s":                                  wall.Seconds(),
+	}
+	if bonusTotal > 0 {
+		cov["beyond_the_quick_set"] = map[string]any{
+			"what":                         "with budget left, the quick tier went on with scenarios reserved for the thorough tier (required bound only, listed order); not part of the exhaustive flag or of the counts above",
+			"thorough_only_scenarios":      bonusTotal,
+			"scenarios_run":                bonusRan,
+			"scenarios_completed_to_bound": bonusComplete,
+			"executions":                   bonusExecs,
+			"scheduling_points":            bonusTrans,
+		}
+		fmt.Printf("part %s/%s tier=%s beyond the quick set: %d of %d thorough-only scenarios (%d executions)\n", s.ID, s.Name, tier, bonusRan, bonusTotal, bonusExecs)
 	}
 	fmt.Printf("part %s/%s tier=%s scenarios=%d/%d executions=%d scheduling_points=%d exhaustive_within_bounds=%v wall=%.1fs\n", s.ID, s.Name, tier, ran, total, execs, trans, exhaustive, wall.Seconds())
 	return &PartResult{Coverage: cov, Findings: findings, Assumptions: s.Assumptions}
